@@ -376,7 +376,7 @@ pub fn check_c15(scn: &Scenario) -> Checked {
 // ---------------------------------------------------------------------------------------------
 // C16
 
-const C16_POOL: &[M] = &[M::A0, M::A1, M::B1, M::E0, M::S0, M::S1, M::S2, M::Gm, M::Vu, M::RcU];
+const C16_POOL: &[M] = &[M::A0, M::A1, M::B1, M::E0, M::S0, M::S1, M::S2, M::Gm, M::Vu, M::RcU, M::D0];
 
 pub fn gen_c16(base_seed: u64, batch: &str, run: u64, rng: &mut Rng) -> Scenario {
     if batch == "executor" {
@@ -417,7 +417,14 @@ pub fn gen_c16(base_seed: u64, batch: &str, run: u64, rng: &mut Rng) -> Scenario
             (*rng.pick(&pool), rng.below(4) as u8, rng.below(4) as u8)
         };
         let y = if m.info().two_args { y } else { 0 };
-        let fault = if batch == "faults" && rng.chance(1, 4) { Some(Fault::ProgPanic { nth: rng.below(2) as u8, pos: rng.below(3) as u8 }) } else { None };
+        let fault = if batch == "faults" && m == M::D0 && rng.chance(1, 2) {
+            // the argument's Debug panics if anybody renders it: nobody may, unless an error is reported
+            Some(Fault::DebugPanic)
+        } else if batch == "faults" && rng.chance(1, 4) {
+            Some(Fault::ProgPanic { nth: rng.below(2) as u8, pos: rng.below(3) as u8 })
+        } else {
+            None
+        };
         if matches!(m.info().recv, Recv::Val | Recv::Rc) {
             // consumes the instance: only as the last operation (the real function owns the mock)
             consumed = Some(Op::Call { slot: 0, m, x, y, catch: true, fault: None, keep: false });
